@@ -105,3 +105,160 @@ Theorem C01_conn_lifecycle_clean : forall sched hc hs,
 Proof. exact ow_conn_lifecycle_from_init. Qed.
 Print Assumptions C01_conn_lifecycle_clean.
 
+(* ==================================================================================================================
+   C01 at the level of the connection model, what is proved: the fault flag is never set
+   - for every configuration g, every byte stream, chunking and interleaving of the two directions,
+   - for every callback behaviour that does not destroy the transaction (premise (a)),
+   - on every sequence of API calls that meets the computable run premise PSafeRun.run_okb (premise (b) and the
+     STOP / ERROR premise, below),
+   with no premise on loop fuel (discharged by PTermReq / PTermRes).
+   Definitions used in the statements (Proof/PSafe.v, PSafeRes.v, PSafeRun.v):
+     safe_inv c   := c_fault c = false /\ TI c /\ rq_inv c, TI = the coupling of in_tx / out_tx, the receiver hooks and the
+                     transaction table (in_tx, out_tx NULL or live; in_tx not yet request-complete; an armed request receiver
+                     means in_tx <> NULL in REQ_HEADERS / REQ_FINALIZE; an armed response receiver means out_tx <> NULL and not
+                     response-complete; RES_IDLE means out_tx = NULL)
+     in_sok c / out_sok c := the request / response stream status is neither STOP nor ERROR
+     in_clean c   := request receiver armed -> k_read <= k_receiver (everything read was handed to the hook) or the chunk is
+                     still readable up to k_read            [premise (b) as a predicate on the state]
+     status_okb c := neither stream status is STOP or ERROR;  in_cleanb c := in_clean c as a boolean
+     op_okb c o   := true for OpOpen / OpTxFreed / OpDestroyTx; status_okb c for OpReqData / OpReqGap / OpReqClose;
+                     status_okb c && in_cleanb c for OpResData / OpResGap;
+                     status_okb c && "the request half of htp_connp_close does not end in STOP / ERROR" for OpClose
+     run_okb c ops := op_okb holds before every operation of the run
+   ================================================================================================================== *)
+Require Import Htp.Proof.PSafe Htp.Proof.PSafeRes Htp.Proof.PSafeRun.
+
+(* ---- one call of htp_connp_req_data: from the invariant, no fault; and unless the call ends in STOP / ERROR the invariant
+        again, with the response direction left as it was (out_kept) ---- *)
+Theorem C01_req_data_no_fault : forall cb g, (forall h n, cb h n <> CB_DESTROY_TX) ->
+  forall data len c c' code,
+  safe_inv c -> (forall d, data = Some d -> (len <= length d)%nat) ->
+  connp_req_data cb g data len c = (c', code) ->
+  req_data_oof cb g data len c = false ->
+  c_fault c' = false /\
+  (in_sok c' -> safe_inv c' /\ out_kept c c' /\
+                (len = O -> c_in_status c = c_HTP_STREAM_CLOSED -> k_read (c_in c') = O)).
+Proof. exact connp_req_data_safe. Qed.
+Print Assumptions C01_req_data_no_fault.
+(* the fuel premise of the per-call statement is implied by the entry conditions of PTermReq *)
+Theorem C01_req_data_fuel : forall cb g data len c,
+  rq_inv c -> (forall d, data = Some d -> (len <= length d)%nat) -> (c_in_status c = c_HTP_STREAM_CLOSED -> len = O) ->
+  req_data_oof cb g data len c = false.
+Proof. exact req_data_oof_false. Qed.
+Print Assumptions C01_req_data_fuel.
+
+(* ---- one call of htp_connp_res_data. Extra premises: in_clean (b); the request stream is not CLOSED (htp_connp_close
+        is the only caller with a closed request stream, and it runs the request half first, which re-opens it); a closed
+        response stream is fed no byte; res_entry_ok: an armed response receiver means RES_LINE / RES_HEADERS, or no byte
+        is fed ---- *)
+Theorem C01_res_data_no_fault : forall cb g, (forall h n, cb h n <> CB_DESTROY_TX) ->
+  forall data len c c' code,
+  safe_inv c -> in_clean c -> c_in_status c <> c_HTP_STREAM_CLOSED ->
+  (forall d, data = Some d -> (len <= length d)%nat) ->
+  (c_out_status c = c_HTP_STREAM_CLOSED -> data = None /\ len = O) ->
+  (c_out_status c <> c_HTP_STREAM_TUNNEL -> res_entry_ok len c) ->
+  connp_res_data cb g data len c = (c', code) ->
+  res_data_oof cb g data len c = false ->
+  c_fault c' = false /\
+  (out_sok c' -> safe_inv c' /\ in_clean c' /\ c_in_status c' <> c_HTP_STREAM_CLOSED /\ c_out_status c' <> c_HTP_STREAM_CLOSED /\
+                 (ebx c' \/ out_same c c')).
+Proof. exact connp_res_data_safe. Qed.
+Print Assumptions C01_res_data_no_fault.
+Theorem C01_res_data_fuel : forall cb g data len c, ts_entry_ok len c -> res_data_oof cb g data len c = false.
+Proof. exact res_data_oof_false. Qed.
+Print Assumptions C01_res_data_fuel.
+
+(* ---- one API operation, and whole runs from the fresh parser ---- *)
+Theorem C01_step_no_fault : forall cb g, (forall h n, cb h n <> CB_DESTROY_TX) ->
+  forall c o, run_ok_inv c -> op_okb cb g c o = true -> run_ok_inv (fst (cp_step cb g c o)).
+Proof. exact cp_step_safe. Qed.
+Print Assumptions C01_step_no_fault.
+Theorem C01_no_fault_partial : forall cb g, (forall h n, cb h n <> CB_DESTROY_TX) ->
+  forall ops, run_okb cb g connp_new ops = true ->
+  forall n, c_fault (fst (cp_run cb g connp_new (firstn n ops))) = false.
+Proof. exact cp_run_no_fault. Qed.
+Print Assumptions C01_no_fault_partial.
+Theorem C01_run_invariant : forall cb g, (forall h n, cb h n <> CB_DESTROY_TX) ->
+  forall ops, run_okb cb g connp_new ops = true ->
+  let c := fst (cp_run cb g connp_new ops) in c_fault c = false /\ (status_okb c = true -> run_inv c).
+Proof. exact cp_run_inv. Qed.
+Print Assumptions C01_run_invariant.
+
+(* ---- the premises exclude the two witnesses above, and none of them can be dropped ---- *)
+(* (a): the oracle of c01_wa_ops destroys; (b): the run premise fails on c01_wb_ops (in_cleanb before the second response chunk) *)
+Example C01_partial_excludes_wa : script_lookup [(18, 0, CB_DESTROY_TX)]%nat 18%nat 0%nat = CB_DESTROY_TX.
+Proof. reflexivity. Qed.
+Example C01_partial_excludes_wb : run_okb (script_lookup [(3, 0, CB_ERROR)]%nat) c01_wb_g connp_new c01_wb_ops = false.
+Proof. vm_compute. reflexivity. Qed.
+(* premise (a) alone is not enough, nor with "neither stream is STOP / ERROR before every call": the run (b) has both
+   statuses DATA throughout (the refusal of the REQUEST_HEADER_DATA callback at the end of the chunk is ignored) *)
+Theorem C01_no_fault_without_in_clean_refuted :
+  ~ (forall cb g ops, (forall h n, cb h n <> CB_DESTROY_TX) ->
+       (forall n, status_okb (fst (cp_run cb g connp_new (firstn n ops))) = true) ->
+       c_fault (fst (cp_run cb g connp_new ops)) = false).
+Proof.
+  intros H. specialize (H (script_lookup [(3, 0, CB_ERROR)]%nat) c01_wb_g c01_wb_ops (script_nodestroy [(3, 0, CB_ERROR)]%nat eq_refl)
+                          (prefixes_all status_okb (script_lookup [(3, 0, CB_ERROR)]%nat) c01_wb_g c01_wb_ops ltac:(vm_compute; reflexivity))).
+  vm_compute in H. discriminate.
+Qed.
+Print Assumptions C01_no_fault_without_in_clean_refuted.
+(* (c) nor is premise (a) with in_clean before every call: a RESPONSE_COMPLETE callback answers STOP to an interim 100 response,
+   htp_connp_close overwrites the STOP status, the second close flushes the armed RESPONSE_HEADER_DATA receiver with out_tx = NULL
+   (known finding null-tx-callback, the response-side twin) *)
+Definition c01_wc_ops : list cp_op := [OpOpen; OpResData [72;84;84;80;47;49;46;49;32;49;48;48;32;67;111;110;116;105;110;117;101;13;10;13;10]%N; OpClose; OpClose].
+Theorem C01_no_fault_without_status_refuted :
+  ~ (forall cb g ops, (forall h n, cb h n <> CB_DESTROY_TX) ->
+       (forall n, in_cleanb (fst (cp_run cb g connp_new (firstn n ops))) = true) ->
+       c_fault (fst (cp_run cb g connp_new ops)) = false).
+Proof.
+  intros H. specialize (H (script_lookup [(17, 0, CB_STOP)]%nat) c01_wb_g c01_wc_ops (script_nodestroy [(17, 0, CB_STOP)]%nat eq_refl)
+                          (prefixes_all in_cleanb (script_lookup [(17, 0, CB_STOP)]%nat) c01_wb_g c01_wc_ops ltac:(vm_compute; reflexivity))).
+  vm_compute in H. discriminate.
+Qed.
+Print Assumptions C01_no_fault_without_status_refuted.
+Example C01_partial_excludes_wc : run_okb (script_lookup [(17, 0, CB_STOP)]%nat) c01_wb_g connp_new c01_wc_ops = false.
+Proof. vm_compute. reflexivity. Qed.
+
+(* ---- non-vacuity of C01_no_fault_partial ---- *)
+(* two pipelined requests (GET, POST with a chunked body) cut in three pieces inside the chunked body, the two responses
+   (Content-Length, chunked) cut inside a header name and interleaved with the request pieces, tx_freed, close *)
+Definition c01_ex_ops : list cp_op := [OpOpen; OpReqData [71;69;84;32;47;97;63;120;61;49;32;72;84;84;80;47;49;46;49;13;10;72;111;115;116;58;32;97;13;10;13;10;80;79;83;84;32;47;98;32;72;84;84;80;47;49;46;49;13;10;72;111;115;116;58;32;97;13;10;84;114;97;110;115;102;101;114;45;69;110;99;111;100;105;110;103;58;32;99;104;117;110;107;101;100;13;10;13;10;53;13;10;104;101;108]%N; OpResData [72;84;84;80;47;49;46;49;32;50;48;48;32;79;75;13;10;67;111;110;116;101;110;116;45;76;101;110;103;116;104;58;32;50;13;10;13;10;104;105;72;84;84;80;47;49;46;49;32;50;48;48;32;79;75;13;10;84;114;97;110;115;102;101;114;45;69;110;99]%N; OpReqData [108;111;13;10;51;13]%N; OpReqData [10;97;98;99;13;10;48;13;10;13;10]%N; OpResData [111;100;105;110;103;58;32;99;104;117;110;107;101;100;13;10;13;10;52;13;10;119;120;121;122;13;10;48;13;10;13;10]%N; OpTxFreed; OpClose].
+Example C01_partial_example_pipelined : run_okb (fun _ _ => CB_OK) c01_w_g connp_new c01_ex_ops = true.
+Proof. vm_compute. reflexivity. Qed.
+Example C01_partial_example_pipelined_two_tx :
+  let r := cp_run (fun _ _ => CB_OK) c01_w_g connp_new c01_ex_ops in
+  c_fault (fst r) = false /\ map r_rc (snd r) = [-1; c_HTP_STREAM_DATA; c_HTP_STREAM_DATA; c_HTP_STREAM_DATA; c_HTP_STREAM_DATA; c_HTP_STREAM_DATA; 0; -1] /\
+  map r_ntx (snd r) = [0; 2; 2; 2; 2; 2; 2; 2]%nat.
+Proof. vm_compute. repeat split; reflexivity. Qed.
+(* the same exchange with tx-level body-data callbacks registered from REQUEST_HEADERS / RESPONSE_HEADERS (they run: hooks 19, 20)
+   and a REQUEST_COMPLETE callback that declines *)
+Example C01_partial_example_callbacks :
+  let cb := script_lookup [(4, 1, CB_REG_REQ_BODY); (13, 0, CB_REG_RES_BODY); (13, 1, CB_REG_RES_BODY); (9, 0, CB_DECLINED)]%nat in
+  run_okb cb c01_w_g connp_new c01_ex_ops = true /\
+  skipn 19%nat (c_hook_calls (fst (cp_run cb c01_w_g connp_new c01_ex_ops))) = [4; 5]%nat.
+Proof. vm_compute. split; reflexivity. Qed.
+(* a callback that answers STOP at the very end (TRANSACTION_COMPLETE of the second transaction): the run meets the premise,
+   the response stream ends STOP, and calls that do not touch the streams may follow *)
+Definition c01_stop_ops : list cp_op := [OpOpen; OpReqData [71;69;84;32;47;97;63;120;61;49;32;72;84;84;80;47;49;46;49;13;10;72;111;115;116;58;32;97;13;10;13;10;80;79;83;84;32;47;98;32;72;84;84;80;47;49;46;49;13;10;72;111;115;116;58;32;97;13;10;84;114;97;110;115;102;101;114;45;69;110;99;111;100;105;110;103;58;32;99;104;117;110;107;101;100;13;10;13;10;53;13;10;104;101;108]%N; OpResData [72;84;84;80;47;49;46;49;32;50;48;48;32;79;75;13;10;67;111;110;116;101;110;116;45;76;101;110;103;116;104;58;32;50;13;10;13;10;104;105;72;84;84;80;47;49;46;49;32;50;48;48;32;79;75;13;10;84;114;97;110;115;102;101;114;45;69;110;99]%N; OpReqData [108;111;13;10;51;13]%N; OpReqData [10;97;98;99;13;10;48;13;10;13;10]%N; OpResData [111;100;105;110;103;58;32;99;104;117;110;107;101;100;13;10;13;10;52;13;10;119;120;121;122;13;10;48;13;10;13;10]%N].
+Example C01_partial_example_stop_at_end :
+  let cb := script_lookup [(18, 1, CB_STOP)]%nat in
+  run_okb cb c01_w_g connp_new (c01_stop_ops ++ [OpTxFreed; OpDestroyTx 0]) = true /\
+  c_out_status (fst (cp_run cb c01_w_g connp_new c01_stop_ops)) = c_HTP_STREAM_STOP.
+Proof. vm_compute. split; reflexivity. Qed.
+(* the fresh parser satisfies the invariant of the runs *)
+Example C01_partial_example_new : run_inv connp_new.
+Proof. exact run_inv_new. Qed.
+
+(* ---- the transaction list does not grow past the configured bound through htp_connp_tx_create ---- *)
+Theorem C01_tx_create_bound : forall g c,
+  (0 < g_max_tx g)%nat -> (length (c_txs c) <= S (g_max_tx g))%nat ->
+  (length (c_txs (snd (connp_tx_create g c))) <= S (g_max_tx g))%nat.
+Proof. exact connp_tx_create_bound. Qed.
+Print Assumptions C01_tx_create_bound.
+(* ---- HTP_STREAM_DATA from htp_connp_res_data means the whole chunk was consumed (twin of C01_req_cursor_in_chunk) ---- *)
+Theorem C01_res_data_means_all : forall cb g data len c,
+  rs_chunk_ok data len -> rs_S c ->
+  snd (connp_res_data cb g data len c) = c_HTP_STREAM_DATA ->
+  (k_len (c_out (fst (connp_res_data cb g data len c))) <= k_read (c_out (fst (connp_res_data cb g data len c))))%nat.
+Proof. exact res_data_data_means_all. Qed.
+Print Assumptions C01_res_data_means_all.
